@@ -26,7 +26,6 @@ CACHE = os.path.join(ROOT, ".cache")
 WORK = os.path.join(ROOT, "work")
 REPO = os.environ.get("VERIF_REPO", "/repo")
 TARGET = os.path.join(CACHE, "target")
-HBIN = os.path.join(TARGET, "release", "harness")
 DRV = os.path.join(LEAN, ".lake", "build", "bin", "drv")
 ALLOWED_AXIOMS = {"propext", "Classical.choice", "Quot.sound"}
 FORBIDDEN = re.compile(r"\b(sorry|admit|native_decide|bv_decide|implemented_by|maxHeartbeats 0)\b|^\s*axiom\s|\bunsafe\s")
@@ -41,7 +40,7 @@ def configure_alt():
     """VERIF_REPO=<scratch worktree>: check that tree instead of /repo without touching /repo or
     the main build directories (used to try candidate changes in parallel).  Lean sources and the
     harness are mirrored (with their build caches) under .cache/alt/<hash>/."""
-    global LEAN, HARNESS, TARGET, HBIN, DRV, WORK
+    global LEAN, HARNESS, TARGET, DRV, WORK
     if os.path.realpath(REPO) == "/repo":
         return
     import hashlib
@@ -57,7 +56,6 @@ def configure_alt():
     LEAN = os.path.join(alt, "lean")
     HARNESS = os.path.join(alt, "harness")
     TARGET = os.path.join(alt, "target")
-    HBIN = os.path.join(TARGET, "release", "harness")
     DRV = os.path.join(LEAN, ".lake", "build", "bin", "drv")
     WORK = os.path.join(alt, "work")
     extract.REPO = REPO
@@ -192,15 +190,21 @@ def audit(mods):
 # ------------------------------------------------------------------------------------------------
 # step 4-5: harness + engines
 
-def cargo_build():
+def hbin(engine):
+    return os.path.join(TARGET, "release", "h_" + engine)
+
+
+def cargo_build(engines):
     with Lock("cargo"):
         lock_src = os.path.join(REPO, "Cargo.lock")
         lock_dst = os.path.join(HARNESS, "Cargo.lock")
         if os.path.exists(lock_src) and not os.path.exists(lock_dst):
             import shutil
             shutil.copy(lock_src, lock_dst)
-        rc, out, err = run(["cargo", "build", "--release", "--offline"], cwd=HARNESS,
-                           env={"CARGO_TARGET_DIR": TARGET})
+        cmd = ["cargo", "build", "--release", "--offline"]
+        for e in engines:
+            cmd += ["--bin", "h_" + e]
+        rc, out, err = run(cmd, cwd=HARNESS, env={"CARGO_TARGET_DIR": TARGET})
     return rc, (out + err)[-3000:]
 
 
@@ -228,7 +232,7 @@ def split_cases(lines):
 
 def run_pair(engine, ops_text, with_model=True):
     """Runs implementation and model on the same ops. Returns (impl_lines, model_lines, stats)."""
-    rc, iout, ierr = run([HBIN, "run", engine], inp=ops_text)
+    rc, iout, ierr = run([hbin(engine), "run", engine], inp=ops_text)
     stats = {}
     m = re.search(r"STATS (\{.*\})", ierr)
     if m:
@@ -337,7 +341,7 @@ def ddmin(engine, text, prop, kind, budget=120):
 
 
 def gen_ops(engine, prop, seed, first, n, tier):
-    rc, out, err = run([HBIN, "gen", engine, str(seed), str(first), str(n), tier, prop])
+    rc, out, err = run([hbin(engine), "gen", engine, str(seed), str(first), str(n), tier, prop])
     stats = {}
     m = re.search(r"STATS (\{.*\})", err)
     if m:
@@ -488,7 +492,7 @@ def check(prop, tier, seed, replay=None):
             proof_ok = False
             broken.append({"file": "leanchecker", "line": 0, "theorem": None, "message": (lo + le)[-300:]})
     # 4. harness
-    rcc, cargo_log = cargo_build()
+    rcc, cargo_log = cargo_build([e["name"] for e in spec["engines"]])
     if rcc != 0:
         log(cargo_log)
         verdict["violations"].append(("harness-build", "the harness does not build against /repo: " + cargo_log[-600:], None))
@@ -642,7 +646,7 @@ def setup():
     rc, broken, lg = lake_build(mods + ["drv"])
     if rc != 0:
         log(lg)
-    rcc, cl = cargo_build()
+    rcc, cl = cargo_build(sorted({e["name"] for s in PROPS.values() for e in s["engines"]}))
     if rcc != 0:
         log(cl)
     return 1 if (rc or rcc) else 0
